@@ -2,11 +2,13 @@
 # Independent re-check of the compiled development with coqchk (slow: the checker has no VM, so the three
 # finite-domain theorems proved by vm_compute dominate).  Usage: tools/coqchk_all.sh [outdir]
 # One log per group under <outdir> (default /verif/coqchk_logs): rc=0 and "Modules were successfully checked".
-# The groups run side by side (one coqchk process each).
+# The groups run side by side (one coqchk process each); COQCHK_GROUPS="light C12" selects some of them.
 cd "$(dirname "$0")/../coq" || exit 2
 out=${1:-/verif/coqchk_logs}
 mkdir -p "$out"
+groups=${COQCHK_GROUPS:-light C13 C12 C19 C15 examples}
 run() { name=$1; shift
+  case " $groups " in *" $name "*) ;; *) return 0;; esac
   ( /usr/bin/time -f "wall=%es maxrss=%MkB" timeout ${COQCHK_TIMEOUT:-20000} coqchk -silent -o -Q theories PC -Q props PCProps "$@"; echo "rc=$?" ) > "$out/$name.log" 2>&1
   tail -3 "$out/$name.log" | tr '\n' ' '; echo " [$name]"
 }
